@@ -339,8 +339,8 @@ def label_rule(repo, res, rule="LABEL"):
                             if re.search(r"\x00[^\x01]*\x01\[label=", tpl):  # `<node id>[label=` whatever the id's local is called
                                 labels.append(m)
                     rets = [m for m in A.walk(a["body"]) if m["k"] == "Return"]
-                    first = min(((m["l"], m["c"]) for m in labels), default=None)
-                    early = [r for r in rets if first is None or (r["l"], r["c"]) < first]
+                    first = min((A.pos(m) for m in labels), default=None)
+                    early = [r for r in rets if first is None or A.pos(r) < first]
                     ok = bool(labels) and not early
                     res.check(ok, rule, f"{rule}:regex::do_to_dot:{v}", f"{len(labels)} labelled node line(s) for this node" + ("" if ok else (", but a `return` precedes the first one: a repeated occurrence is never drawn as a labelled node" if labels else ": this expected item never appears as a labelled node")), f"{fn.file}:{a['l']}")
             res.floor(rule + "-regex-arms", n_arms, 9)
